@@ -141,7 +141,25 @@ func domGuard(b *ssa.BasicBlock, pred func(cond ssa.Value) (succ int, ok bool)) 
 		}
 		s, ok := pred(iff.Cond)
 		if !ok {
-			continue
+			// `case !x:` of a tagless switch keeps the negation as a value: judge x and swap the edges
+			core, flip := iff.Cond, false
+			for {
+				u, isNot := core.(*ssa.UnOp)
+				if !isNot || u.Op != token.NOT {
+					break
+				}
+				core, flip = u.X, !flip
+			}
+			if core == iff.Cond {
+				continue
+			}
+			s, ok = pred(core)
+			if !ok {
+				continue
+			}
+			if flip {
+				s = 1 - s
+			}
 		}
 		t := hb.Succs[s]
 		if len(t.Preds) == 1 && t.Dominates(b) {
@@ -730,7 +748,7 @@ func (e *unitEngine) compute(v ssa.Value) unit {
 		if e.runeParamFns[f] {
 			return uRune
 		}
-		if f == e.absFn {
+		if e.absFn != nil && f == e.absFn {
 			return uNone // polymorphic; resolved at the call
 		}
 		return uNone
@@ -756,7 +774,7 @@ func (e *unitEngine) compute(v ssa.Value) unit {
 		if callee == e.posNth {
 			return uByte
 		}
-		if callee == e.absFn {
+		if e.absFn != nil && callee == e.absFn {
 			return e.unitOf(v.Call.Args[0])
 		}
 		return uNone
@@ -818,9 +836,9 @@ func (e *unitEngine) compute(v ssa.Value) unit {
 func runUNIT(c *Ctx, r *Result, rule string) {
 	e := &unitEngine{c: c, memo: map[ssa.Value]unit{}, busy: map[ssa.Value]bool{}, runeParamFns: map[*ssa.Function]bool{}}
 	e.posNth = c.mustFn(r, "jlib.positionOfNthRune")
-	e.absFn = c.mustFn(r, "jlib.abs")
+	e.absFn = c.fn("jlib.abs") // a helper of Pad; it may have been inlined
 	sub, pad := c.mustFn(r, "jlib.Substring"), c.mustFn(r, "jlib.Pad")
-	if e.posNth == nil || e.absFn == nil || sub == nil || pad == nil {
+	if e.posNth == nil || sub == nil || pad == nil {
 		return
 	}
 	e.runeParamFns[sub] = true
@@ -828,6 +846,9 @@ func runUNIT(c *Ctx, r *Result, rule string) {
 	e.runeParamFns[e.posNth] = true // its n parameter counts runes (obligation at every call site)
 	n := 0
 	for _, f := range []*ssa.Function{sub, pad, e.posNth, e.absFn} {
+		if f == nil {
+			continue
+		}
 		ord := map[string]int{}
 		for _, ins := range instrsIn(f) {
 			switch ins := ins.(type) {
